@@ -115,7 +115,7 @@ def check(ctx: Ctx, rep: Report):
                 for t in tgts:
                     if isinstance(t, ast.Attribute) and isinstance(t.value, ast.Name) and t.value.id not in ("self", "cls"):
                         types = ctx.res.expr_types(t.value, fn)
-                        if any(ty[0] == "inst" and ty[1].name in shared for ty in types):
+                        if any(ty[0] == "inst" and any(sub.name in shared for sub in prog.all_subclasses(ty[1])) for ty in types):
                             rep.violation("C20.R1", "external-store:%s:%s" % (fn.short, norm(t)), fn.loc(n),
                                           "%s assigns %s on a definition object shared by all inverter instances" % (fn.short, norm(t)))
     # ---- R2
